@@ -24,23 +24,33 @@ import (
 
 const c10MaxU64 = ^uint64(0)
 
-// c10V reports a violation but keeps at most two witnesses per signature
-// (verifkit keeps only the first ten violations of a unit; a defect that fires
-// on most cases must not crowd out other signatures). Every occurrence is
-// counted under "viol.<sig>".
+// c10V reports a violation but keeps one witness per signature (verifkit keeps
+// only the first ten violations of a unit; a defect that fires on most cases
+// must not crowd out other signatures). Every occurrence is counted under
+// "viol.<sig>"; a first witness that no longer fits into the ten kept
+// violations is stored as an evidence note "witness.<sig>".
 var (
 	c10VMu   sync.Mutex
 	c10VSeen = map[string]int{}
+	c10VKept int
 )
 
 func c10V(r *verifkit.Run, sig string, witness any) {
 	c10VMu.Lock()
 	c10VSeen[sig]++
 	n := c10VSeen[sig]
+	overflow := false
+	if n == 1 {
+		c10VKept++
+		overflow = c10VKept > 10
+	}
 	c10VMu.Unlock()
 	r.Count("viol."+sig, 1)
-	if n <= 2 {
+	if n == 1 {
 		r.Violation(sig, witness)
+		if overflow {
+			r.Note("witness."+sig, witness)
+		}
 	}
 }
 
@@ -221,7 +231,11 @@ type c10Hub struct {
 	// retention observations per node (store level), for monotonicity.
 	lastLocal map[ch.NodeID]uint64
 	lastPhys  map[ch.NodeID]uint64
+	// applied counts replicated record batches a node persisted as a follower.
+	applied map[ch.NodeID]int
 
+	// mode names the replication wiring of the live case ("pull" / "quorum").
+	mode string
 	// history returns the director's step log for witnesses (may be nil).
 	history func() []string
 
@@ -245,7 +259,19 @@ type c10Hub struct {
 }
 
 func c10NewHub(r *verifkit.Run) *c10Hub {
-	return &c10Hub{r: r, factories: map[ch.NodeID]*c10Factory{}, lastLocal: map[ch.NodeID]uint64{}, lastPhys: map[ch.NodeID]uint64{}}
+	return &c10Hub{r: r, factories: map[ch.NodeID]*c10Factory{}, lastLocal: map[ch.NodeID]uint64{}, lastPhys: map[ch.NodeID]uint64{}, applied: map[ch.NodeID]int{}}
+}
+
+func (h *c10Hub) noteApplied(node ch.NodeID) {
+	h.mu.Lock()
+	h.applied[node]++
+	h.mu.Unlock()
+}
+
+func (h *c10Hub) appliedCount(node ch.NodeID) int {
+	h.mu.Lock()
+	defer h.mu.Unlock()
+	return h.applied[node]
 }
 
 func (h *c10Hub) setTopology(id ch.ChannelID, leader ch.NodeID, isr []ch.NodeID) {
@@ -444,6 +470,9 @@ func (s *c10Store) AppendLeader(ctx context.Context, req store.AppendLeaderReque
 	res, err := s.ChannelStore.AppendLeader(ctx, req)
 	if s.mine() {
 		s.hub.record(c10Event{Node: uint64(s.f.node), Kind: "append_leader", Arg: uint64(len(req.Records)), Arg2: req.Committed, Res: res.BaseOffset, Res2: res.LastOffset, Err: c10ErrStr(err)})
+		if err == nil && len(req.Records) > 0 && !s.isLeaderNode() {
+			s.hub.noteApplied(s.f.node)
+		}
 		if err == nil && len(req.Records) > 0 && s.isLeaderNode() {
 			for {
 				cur := s.hub.leaderAppendLast.Load()
@@ -467,6 +496,9 @@ func (s *c10Store) ApplyFollower(ctx context.Context, req store.ApplyFollowerReq
 			first = req.Records[0].Index
 		}
 		s.hub.record(c10Event{Node: uint64(s.f.node), Kind: "apply_follower", Arg: first, Arg2: req.LeaderHW, Res: res.LEO, Res2: res.CheckpointHW, Err: c10ErrStr(err)})
+		if err == nil && len(req.Records) > 0 {
+			s.hub.noteApplied(s.f.node)
+		}
 	}
 	return res, err
 }
@@ -630,12 +662,17 @@ func (s *c10Store) TrimMessagesThrough(ctx context.Context, through uint64, opts
 			}
 			if res.Deleted > 0 && deletedThrough > fst.LEO {
 				h.leaderTrimmedAboveFollower.Store(true)
+				// A follower that never persisted a replicated batch never
+				// acknowledged a non-zero offset, so the leader has no progress
+				// entry for it; one that did is known to the leader and merely
+				// behind.
 				kind := "follower-lagging"
-				if fst.LEO == 0 {
-					kind = "follower-leo-0"
+				if h.appliedCount(fnode) == 0 {
+					kind = "follower-never-applied"
 				}
-				c10V(h.r, "leader-trim-above-isr-follower-leo:"+kind, map[string]any{
-					"leader": node, "follower": fnode, "follower_durable_leo_after_trim": fst.LEO,
+				c10V(h.r, "leader-trim-above-isr-follower-leo:"+kind+":"+h.mode, map[string]any{
+					"replication_mode": h.mode,
+					"leader": node, "follower": fnode, "follower_durable_leo_after_trim": fst.LEO, "follower_replicated_batches_applied": h.appliedCount(fnode),
 					"requested_through": through, "deleted_through": deletedThrough, "deleted": res.Deleted,
 					"leader_leo": stAfter.LEO, "leader_checkpoint_hw": stAfter.CheckpointHW, "isr": isr, "events": h.tail(40), "history": h.steps()})
 			}
